@@ -45,12 +45,15 @@ ASSUMPTIONS = ['only the Mermaid backend exists in this sandbox (python modules 
                'label keyword; compound states added after construction are in the envelope for every class since D43); '
                '20 % of the cases run on LockedGraphMachine / LockedHierarchicalGraphMachine '
                '(same synchronous runner, one thread)',
-               'transitions are registered at the root scope with full state names; tags and timeout state '
+               'transitions are registered at the root scope with full state names or declared inside the definition of a '
+               'compound state (relative names; the triggers of one scope are used in no other scope: no mixed-scope '
+               'precedence; state names are distinct over the whole machine, see the final report on relative names in '
+               'the previous style); tags and timeout state '
                'attributes (show_state_attributes) are not covered; header lines (title, direction, classDef) and '
                'indentation of the Mermaid text are skipped by the parser',
                'the order of edge lines and of the labels within one edge line is not compared (dict order)']
 THEOREMS = ['C16_states_once', 'C16_nesting', 'C16_parallel_separated', 'C16_edges', 'C16_edges_user',
-            'C16_edges_only', 'C16_label', 'C16_marks', 'C16_styles', 'C16_styles_exit_refuted',
+            'C16_edges_scoped', 'C16_edges_only', 'C16_label', 'C16_marks', 'C16_styles', 'C16_styles_exit_refuted',
             'C16_styles_regen_refuted', 'C16_roi',
             'C16_refresh', 'C16_added_state', 'C16_added_states', 'C16_added_transition', 'C16_removed_transition', 'C16_example_wf',
             'C16_example_nested']
@@ -166,6 +169,7 @@ def gen(rng, i, tier):
     case = dict(kind='hsm' if hsm else 'flat', enum=use_enum, opts=opts, states=forest, trans=trans,
                 initial=rng.choice(paths), ops=[], val=val, acts={}, budget=0, regen=[], autos=rng.random() >= 0.35,
                 cls=_pick_cls(rng.random()))
+    case['scoped'] = _scoped(rng, forest, val) if hsm else []
     if nested:
         _add_acts(rng, case, val)
     if wide:
@@ -181,6 +185,8 @@ def gen(rng, i, tier):
                 ev = 'to_' + _full_text(cur_forest, rng.choice(paths))
             elif q < 0.24:
                 ev = 'nosuch'
+            elif case['scoped'] and q < 0.5:
+                ev = rng.choice(case['scoped'])[1]['trig']
             elif cur_trans and q < 0.8:
                 ev = rng.choice(cur_trans)['trig']
             else:
@@ -216,6 +222,24 @@ def gen(rng, i, tier):
     return _fit_class(case)
 
 
+def _scoped(rng, forest, val, pfx=()):
+    """transitions declared inside the definition of a compound state (its own 'transitions' list): names relative to
+    that state; normal, reflexive and internal ones; at every depth, also in parallel states and their regions.  The
+    triggers of one scope are used nowhere else."""
+    out = []
+    for nd in forest:
+        if not nd['kids']:
+            continue
+        scope = list(pfx) + [nd['id']]
+        if rng.random() < 0.55:
+            rel = _paths(nd['kids'])
+            for _ in range(rng.randint(1, 3)):
+                t = _trans(rng, rel, val, trig='loc%d%s' % (nd['id'], rng.choice('ab')))
+                out.append([scope, t])
+        out += _scoped(rng, nd['kids'], val, scope)
+    return out
+
+
 def _added(o):
     """top-level states an op adds"""
     return [o[1]] if o[0] == 'adds' else (list(o[1]) if o[0] == 'addsl' else [])
@@ -230,7 +254,7 @@ def _fit_class(case):
     """async graph machines use AsyncTransition, which has no 'label' keyword (custom edge labels are a feature of
     TransitionGraphSupport only): no custom transition labels in async cases"""
     if case['cls'] == 'async':
-        for t in case['trans'] + [o[1] for o in case['ops'] if o[0] == 'addt']:
+        for t in case['trans'] + [o[1] for o in case['ops'] if o[0] == 'addt'] + [x[1] for x in case.get('scoped', [])]:
             t['label'] = None
         # an async machine runs the callbacks of one list concurrently (asyncio.gather) and a follow-up event has to
         # be awaited from a coroutine callback: task scheduling / cancellation is C08's subject, not modelled here.
@@ -324,7 +348,8 @@ def enc(case):
             [enc_node(n) for n in case['states']], [enc_trans(t) for t in case['trans']],
             case['initial'], [enc_op(x) for x in case['ops']],
             [[_s(c), _s(e)] for c, e in sorted(case.get('acts', {}).items())], case.get('budget', 0),
-            [_s(c) for c in case.get('regen', [])]]
+            [_s(c) for c in case.get('regen', [])],
+            [[sc, enc_trans(t)] for sc, t in case.get('scoped', [])]]
 
 
 # ------------------------------------------------------------------ implementation side
@@ -409,7 +434,19 @@ def parse_mermaid(text, names):
     return out
 
 
-def _state_cfg(nd, hsm):
+def _rel_cfg(nd, t):
+    cfg = dict(trigger=t['trig'], source=_full_text(nd['kids'], t['src']),
+               dest=None if t['dst'] is None else _full_text(nd['kids'], t['dst']))
+    if t['label'] is not None:
+        cfg['label'] = t['label']
+    if t['conds']:
+        cfg['conditions'] = [c for c, _ in t['conds']]
+    if t['unless']:
+        cfg['unless'] = [c for c, _ in t['unless']]
+    return cfg
+
+
+def _state_cfg(nd, hsm, scoped=(), pfx=()):
     cfg = {'name': nd['text']}
     if nd['label'] is not None:
         cfg['label'] = nd['label']
@@ -420,7 +457,11 @@ def _state_cfg(nd, hsm):
     if nd['exit']:
         cfg['on_exit'] = list(nd['exit'])
     if nd['kids']:
-        kids = [_state_cfg(k, hsm) for k in nd['kids']]
+        here = list(pfx) + [nd['id']]
+        kids = [_state_cfg(k, hsm, scoped, here) for k in nd['kids']]
+        own = [_rel_cfg(nd, t) for sc, t in scoped if sc == here]
+        if own:
+            cfg['transitions'] = own
         if nd['par']:
             cfg['parallel'] = kids
         else:
@@ -540,7 +581,7 @@ def impl(case):
         return cfg
 
     o = case['opts']
-    states = en if en is not None else [_state_cfg(nd, hsm) for nd in case['states']]
+    states = en if en is not None else [_state_cfg(nd, hsm, case.get('scoped', [])) for nd in case['states']]
     kw = dict(model=model, states=states, initial=sref(case['initial']),
               transitions=[tcfg(t) for t in case['trans']], graph_engine='mermaid',
               auto_transitions=bool(case.get('autos', True)),
@@ -722,6 +763,9 @@ def stats(case, obs, dist):
             inc('add_states_list_compound_first')
     inc('states_total', len(_paths(case['states'])))
     inc('transitions_total', len(case['trans']))
+    inc('scoped_transitions', len(case.get('scoped', [])))
+    inc('scoped_internal', sum(1 for _, t in case.get('scoped', []) if t['dst'] is None))
+    inc('scoped_depth2', sum(1 for sc, _ in case.get('scoped', []) if len(sc) >= 2))
     if any(nd['par'] for nd in _all_nodes(case['states'])):
         inc('with_parallel')
     if _has_nesting(case):
@@ -779,7 +823,15 @@ def shrink_candidates(case):
             c = copy.deepcopy(case)
             c['trans'][i]['label'] = None
             yield c
+    for i in range(len(case.get('scoped', []))):
+        c = copy.deepcopy(case)
+        del c['scoped'][i]
+        yield c
     used = {tuple(case['initial'])}
+    for sc, t in case.get('scoped', []):
+        used.add(tuple(sc + t['src']))
+        if t['dst'] is not None:
+            used.add(tuple(sc + t['dst']))
     for t in case['trans'] + [o[1] for o in case['ops'] if o[0] == 'addt']:
         used.add(tuple(t['src']))
         if t['dst'] is not None:
